@@ -186,6 +186,13 @@ func createStrategy(strategyName string) Strategy {
 }
 
 func createHealthChecker(cfg *config.Config) *healthChecker {
+	// The unhealthy window is configured in the passive section but also applies to a failed active probe. A
+	// configuration with active checks only (the README's basic example) leaves it at 0, which made every
+	// ejection end at once: fall back to the documented 30 seconds.
+	unhealthyTimeout := time.Duration(cfg.HealthChecks.Passive.UnhealthyTimeout) * time.Second
+	if unhealthyTimeout <= 0 {
+		unhealthyTimeout = 30 * time.Second
+	}
 	return &healthChecker{
 		activeEnabled:     cfg.HealthChecks.Active.Enabled,
 		activeInterval:    time.Duration(cfg.HealthChecks.Active.Interval) * time.Second,
@@ -193,7 +200,7 @@ func createHealthChecker(cfg *config.Config) *healthChecker {
 		activePath:        cfg.HealthChecks.Active.Path,
 		passiveEnabled:    cfg.HealthChecks.Passive.Enabled,
 		passiveThreshold:  cfg.HealthChecks.Passive.UnhealthyThreshold,
-		passiveTimeout:    time.Duration(cfg.HealthChecks.Passive.UnhealthyTimeout) * time.Second,
+		passiveTimeout:    unhealthyTimeout,
 		unhealthyBackends: make(map[string]int),
 	}
 }
